@@ -17,6 +17,17 @@
 //!   `#p` lines record whether the answers (with file ids renamed to keys) equal those of a fresh
 //!   `Project` loaded (a) in an order that reproduces the same relative id order, (b) in key order.
 //!
+//! The Database/Project cases run in a WORKER process (`supervise`): the worker hands every operation
+//! line to the supervising process before it runs the operation, so an operation that kills the
+//! process (unbounded recursion ends in a stack overflow = abort, which `catch_unwind` cannot see)
+//! or hangs it is recorded as `impl abort` + `#o/#p … panic=1` + `#x panic process died …`, and the
+//! run continues with the next case in a new worker (`--inproc 1`: everything in one process).
+//!
+//! Round-3 generator additions: themes `inherit` (bases / derived / interfaces / users in different
+//! files, variants that differ only in the name after EXTENDS / IMPLEMENTS, same length) and
+//! `rectypes` (types reaching themselves through REF_TO / POINTER TO / ARRAY OF / alias, within one
+//! file and across two), edits that move nothing (`swap_ident`, `same_shape_variants`, `DOp::SetSwap`).
+//!
 //! Protocol (one case):
 //!   case <n> / stream db|proj / text <k> <hex> / set <fid> <k> / rm <fid> / q <kind> <fid> <arg>
 //!   pset <key> <k> / prm <key> / pq <kind> <key> <arg> / impl … / #o … / #p … / tag … / end
